@@ -141,13 +141,12 @@ func extractFirstBytesRecursive(re *syntax.Regexp, result *FirstByteSet, depth i
 		}
 		return true
 
-	case syntax.OpBeginLine, syntax.OpBeginText:
-		// Anchors don't consume bytes, skip to next
-		return true
-
-	case syntax.OpEndLine, syntax.OpEndText:
-		// End anchors: pattern could match at end, need to check next part
-		return true
+	case syntax.OpBeginLine, syntax.OpBeginText, syntax.OpEndLine, syntax.OpEndText:
+		// An assertion consumes no byte: on its own (an alternation branch `a|^`, a
+		// group `(^)`, a repetition `(?:^)+`) it matches the empty string, so the
+		// match may begin with whatever follows the enclosing expression - or be
+		// empty. OpConcat skips leading assertions; nothing can be said here.
+		return false
 
 	case syntax.OpCapture:
 		// Capture group: recurse into content
@@ -157,15 +156,17 @@ func extractFirstBytesRecursive(re *syntax.Regexp, result *FirstByteSet, depth i
 		return extractFirstBytesRecursive(re.Sub[0], result, depth+1)
 
 	case syntax.OpConcat:
-		// Concatenation: find first non-anchor part
+		// Concatenation: the first part that consumes input decides. Leading
+		// assertions (^, $, \A, \z, also inside groups: `(^)a`) are zero-width, the
+		// next element follows them at the same position.
 		for _, sub := range re.Sub {
 			// Skip anchors
-			if sub.Op == syntax.OpBeginLine || sub.Op == syntax.OpBeginText {
+			if isAssertionOnly(sub) {
 				continue
 			}
 			return extractFirstBytesRecursive(sub, result, depth+1)
 		}
-		return false // All anchors, no content
+		return false // All anchors, no content: matches the empty string
 
 	case syntax.OpAlternate:
 		// Alternation: union of all branches
@@ -203,4 +204,24 @@ func extractFirstBytesRecursive(re *syntax.Regexp, result *FirstByteSet, depth i
 		// Unknown op, bail out
 		return false
 	}
+}
+
+// isAssertionOnly reports whether re consists of the anchors ^, $, \A, \z alone,
+// possibly grouped, concatenated or repeated at least once: it then matches only
+// the empty string, at positions where the anchors hold.
+func isAssertionOnly(re *syntax.Regexp) bool {
+	switch re.Op {
+	case syntax.OpBeginLine, syntax.OpBeginText, syntax.OpEndLine, syntax.OpEndText:
+		return true
+	case syntax.OpCapture, syntax.OpPlus:
+		return len(re.Sub) == 1 && isAssertionOnly(re.Sub[0])
+	case syntax.OpConcat:
+		for _, sub := range re.Sub {
+			if !isAssertionOnly(sub) {
+				return false
+			}
+		}
+		return len(re.Sub) > 0
+	}
+	return false
 }
